@@ -106,7 +106,11 @@ pub fn run_case_c07(case: &Case, prog: &Prog, mode: &Mode) -> (CaseReport, Value
 /// every (id, kind) at which a panic can be injected, from the model's expectation under the
 /// all-succeed plan
 pub fn panic_points(prog: &Prog) -> Vec<(u32, K)> {
-    let exp = model::interpret(prog, &Plan::all_good());
+    panic_points_under(prog, &Plan::all_good())
+}
+
+pub fn panic_points_under(prog: &Prog, plan: &Plan) -> Vec<(u32, K)> {
+    let exp = model::interpret(prog, plan);
     let mut v: Vec<(u32, K)> = Vec::new();
     for se in &exp.steps {
         for e in &se.caps {
@@ -144,22 +148,51 @@ pub fn child_main(case: &Case, plan: &Plan) {
     if let Some(n) = named {
         b = b.name(n);
     }
-    let h = b
+    let (tx, rx) = std::sync::mpsc::channel();
+    let _h = b
         .spawn(move || {
             let r = std::panic::catch_unwind(std::panic::AssertUnwindSafe(|| f()));
             let events = log::snapshot();
-            (r.is_err(), r.err().map(|p| crate::runner::panic_message(&p)), events)
+            let _ = tx.send((r.is_err(), r.err().map(|p| crate::runner::panic_message(&p)), events));
         })
         .unwrap();
-    let (panicked, msg, events) = h.join().expect("child worker");
+    // sibling threads parked at the plan's gates are released only once the caller has got control
+    // back; a caller that has not returned after JV_HOLD_MS while they are parked is reported as
+    // blocked (and they are released so that the run can end)
+    let hold_ms: u64 = std::env::var("JV_HOLD_MS").ok().and_then(|s| s.parse().ok()).unwrap_or(3000);
+    let mut blocked = false;
+    let res = if plan.gates.is_empty() {
+        rx.recv().ok()
+    } else {
+        match rx.recv_timeout(Duration::from_millis(hold_ms)) {
+            Ok(r) => {
+                crate::sched::open_all();
+                Some(r)
+            }
+            Err(_) => {
+                blocked = true;
+                crate::sched::open_all();
+                rx.recv().ok()
+            }
+        }
+    };
+    let (panicked, msg, events) = res.expect("child worker");
     let evs: Vec<Value> = events.iter().map(|e| json!([e.id, e.k.name(), e.seq])).collect();
-    println!("{}", json!({"child": true, "panicked": panicked, "msg": msg, "events": evs}));
+    println!("{}", json!({"child": true, "panicked": panicked, "msg": msg, "events": evs, "blocked": blocked}));
+    use std::io::Write;
+    let _ = std::io::stdout().flush();
+    std::process::exit(0);
 }
 
 fn run_child(case_idx: usize, plan: &Plan, timeout: Duration) -> Result<Value, String> {
+    run_child_hold(case_idx, plan, timeout, 3000)
+}
+
+fn run_child_hold(case_idx: usize, plan: &Plan, timeout: Duration, hold_ms: u64) -> Result<Value, String> {
     let exe = std::env::current_exe().map_err(|e| e.to_string())?;
     let mut child = Command::new(exe)
         .env("JV_CHILD", "1")
+        .env("JV_HOLD_MS", hold_ms.to_string())
         .env("JV_ONLY", case_idx.to_string())
         .env("JV_PLAN", plan.to_json().to_string())
         .stdout(Stdio::piped())
@@ -201,14 +234,41 @@ fn run_child(case_idx: usize, plan: &Plan, timeout: Duration) -> Result<Value, S
 pub fn run_case_c18(case: &Case, prog: &Prog, mode: &Mode) -> CaseReport {
     let mut rep = CaseReport::new();
     let kind = prog.kind();
-    let points = panic_points(prog);
     let loc = model::locations(prog);
-    let exp = model::interpret(prog, &Plan::all_good());
-    for (pi, (id, k)) in points.iter().enumerate() {
+    let exp_good = model::interpret(prog, &Plan::all_good());
+    // injection points: every evaluation under the all-succeed plan, then (not for the async try
+    // macros, which drop the siblings of a failing branch half way) the evaluations under one plan
+    // with a failing callback - handler and capture positions first
+    let mut points: Vec<(Plan, u32, K)> = panic_points(prog).into_iter().map(|(id, k)| (Plan::all_good(), id, k)).collect();
+    let n_good = points.len();
+    if !(kind.is_async && kind.is_try) {
+        let dec = model::decision_ids(prog);
+        if !dec.is_empty() {
+            let pick = dec[(crate::tok::mixf(mode.seed ^ 0x18, case.idx as u32) % dec.len() as u64) as usize];
+            let mut bad = Plan::all_good();
+            bad.bad = vec![pick];
+            let mut extra = panic_points_under(prog, &bad);
+            extra.sort_by_key(|(id, k)| (!matches!(k, K::HExpr | K::HCall | K::Cap), *id));
+            points.extend(extra.into_iter().map(|(id, k)| (bad.clone(), id, k)));
+        }
+    }
+    // the budget is shared: at most two thirds for the all-succeed plan when there are others
+    let cap_good = if points.len() > n_good { (mode.budget * 2 / 3).max(1) } else { mode.budget };
+    for (pi, (base, id, k)) in points.iter().enumerate() {
         if rep.runs as usize >= mode.budget {
             break;
         }
-        let mut plan = Plan::all_good();
+        if pi < n_good && pi >= cap_good {
+            continue;
+        }
+        let exp_bad;
+        let exp: &crate::model::Expect = if base.bad.is_empty() {
+            &exp_good
+        } else {
+            exp_bad = model::interpret(prog, base);
+            &exp_bad
+        };
+        let mut plan = base.clone();
         plan.panic_at = Some((*id, k.name().to_string()));
         let inj_step = loc.get(id).map(|l| l.1).unwrap_or(0);
         let multi = prog.active(inj_step.min(prog.max_steps().saturating_sub(1))).len() > 1;
@@ -217,9 +277,9 @@ pub fn run_case_c18(case: &Case, prog: &Prog, mode: &Mode) -> CaseReport {
         if kind.is_async {
             // deterministic executor: gates everywhere, a wake-up order derived from the position
             let mut p2 = plan.clone();
-            p2.gates = asyncx::choose_gates(&exp, (pi % 3) as u8);
+            p2.gates = asyncx::choose_gates(exp, (pi % 3) as u8);
             let sch = asyncx::ASchedule { picks: vec![pi % 3, (pi / 3) % 3, 0, pi % 2], knob: (mode.seed ^ pi as u64) | 1, gate_sel: (pi % 3) as u8 };
-            let ar = asyncx::run_async(case, prog, &p2, &exp, &sch, asyncx::What::Panic);
+            let ar = asyncx::run_async(case, prog, &p2, exp, &sch, asyncx::What::Panic);
             rep.runs += 1;
             let happened = ar.events.iter().any(|e| e.id == *id && e.k == *k);
             if !happened {
@@ -246,11 +306,50 @@ pub fn run_case_c18(case: &Case, prog: &Prog, mode: &Mode) -> CaseReport {
             plan = p2;
             events_short = ar.events;
         } else {
-            let r = run_child(case.idx, &plan, Duration::from_secs(20));
+            // thread-spawning macros: the later siblings of the panicking branch stay parked in
+            // their first callback of the step until the caller has got control back
+            let mut held = false;
+            if kind.is_spawn {
+                if let Some(&(b, s)) = loc.get(id) {
+                    if b != usize::MAX && matches!(k, K::Init | K::Op | K::Call) {
+                        if let Some(se) = exp.steps.get(s) {
+                            for (j, bs) in se.branches.iter().enumerate() {
+                                if j > b {
+                                    if let Some(c) = bs.as_ref().and_then(|bs| bs.calls.first()) {
+                                        plan.gates.push(c.id);
+                                    }
+                                }
+                            }
+                        }
+                        held = !plan.gates.is_empty();
+                    }
+                }
+            }
+            let mut r = run_child(case.idx, &plan, Duration::from_secs(40));
             rep.runs += 1;
+            if held {
+                rep.class("siblings_parked");
+                if matches!(&r, Ok(v) if v["blocked"] == true) {
+                    // confirm with a four times longer hold before calling it blocked
+                    r = run_child_hold(case.idx, &plan, Duration::from_secs(60), 12000);
+                    if let Ok(v) = &r {
+                        if v["blocked"] == true {
+                            vs.push(crate::oracle::Violation {
+                                oracle: "panic",
+                                detail: format!(
+                                    "panic injected at {}#{}: the caller stayed blocked (3 s, then 12 s in a second run) while later sibling threads of the step were parked at {:?}; it returned only after they were released",
+                                    k.name(),
+                                    id,
+                                    plan.gates
+                                ),
+                            });
+                        }
+                    }
+                }
+            }
             match r {
                 Err(e) if e == "timeout" => {
-                    rep.infra.push(format!("evaluation with a panic injected at {}#{} did not return within 20 s (inconclusive)", k.name(), id));
+                    rep.infra.push(format!("evaluation with a panic injected at {}#{} did not return within 40 s (inconclusive)", k.name(), id));
                     continue;
                 }
                 Err(e) => {
@@ -288,6 +387,9 @@ pub fn run_case_c18(case: &Case, prog: &Prog, mode: &Mode) -> CaseReport {
             }
         }
         rep.class(&format!("inject_{}", k.name()));
+        if !base.bad.is_empty() {
+            rep.class("inject_under_failing_plan");
+        }
         if inj_step > 0 {
             rep.class("inject_step>0");
         }
